@@ -133,8 +133,11 @@ def run_case(case):
                 if path == ("param",):
                     upd = (xd - before[j].to(torch.float64)).abs()
                     scale = upd + (upd.pow(2).mean().sqrt() if upd.numel() else 0.0) + 1e-9 * xd.abs()
-                ulp = 4 * float(torch.finfo(x.dtype).eps) if x.dtype.is_floating_point else 0.0
-                r = float(((xd - yd).abs() / (1e-6 * scale + ulp * xd.abs() + 1e-300)).max()) if xd.numel() else 0.0
+                # a few ulps, measured against the size of the tensor (results of rotations / mode products carry errors relative
+                # to the norm of the operands, not to each entry)
+                ulp = 8 * float(torch.finfo(x.dtype).eps) if x.dtype.is_floating_point else 0.0
+                rms = xd.pow(2).mean().sqrt() if xd.numel() else 0.0
+                r = float(((xd - yd).abs() / (1e-6 * scale + ulp * (xd.abs() + rms) + 1e-300)).max()) if xd.numel() else 0.0
                 if not r <= 1.0:
                     raise Violation(f"step {t + 1}: {'/'.join(map(str, path))} of parameter {j} differs between the compiled and the eager optimizer (deviation/tolerance {r:.3g})", step=t + 1, param=j, tensor=[str(s) for s in path], eager=[float(v) for v in xd.flatten()[:4]], compiled=[float(v) for v in yd.flatten()[:4]], **desc)
         counters["steps_bitwise" if bitwise else "steps_within_tolerance"] += 1
